@@ -215,7 +215,7 @@ func (g *Geometry) UnmarshalBSON(data []byte) error {
 		g.Coordinates = p
 	case "MultiPoint":
 		mp := orb.MultiPoint{}
-		err = bg.Coordinates.Unmarshal(&mp)
+		err = unmarshalBSONCoordinates(bg.Coordinates, &mp)
 		if err != nil {
 			return err
 		}
@@ -223,28 +223,28 @@ func (g *Geometry) UnmarshalBSON(data []byte) error {
 	case "LineString":
 		ls := orb.LineString{}
 
-		err = bg.Coordinates.Unmarshal(&ls)
+		err = unmarshalBSONCoordinates(bg.Coordinates, &ls)
 		if err != nil {
 			return err
 		}
 		g.Coordinates = ls
 	case "MultiLineString":
 		mls := orb.MultiLineString{}
-		err = bg.Coordinates.Unmarshal(&mls)
+		err = unmarshalBSONCoordinates(bg.Coordinates, &mls)
 		if err != nil {
 			return err
 		}
 		g.Coordinates = mls
 	case "Polygon":
 		p := orb.Polygon{}
-		err = bg.Coordinates.Unmarshal(&p)
+		err = unmarshalBSONCoordinates(bg.Coordinates, &p)
 		if err != nil {
 			return err
 		}
 		g.Coordinates = p
 	case "MultiPolygon":
 		mp := orb.MultiPolygon{}
-		err = bg.Coordinates.Unmarshal(&mp)
+		err = unmarshalBSONCoordinates(bg.Coordinates, &mp)
 		if err != nil {
 			return err
 		}
@@ -258,6 +258,17 @@ func (g *Geometry) UnmarshalBSON(data []byte) error {
 	g.Type = g.Geometry().GeoJSONType()
 
 	return nil
+}
+
+// unmarshalBSONCoordinates decodes the coordinates value. An empty geometry is
+// marshalled without a "coordinates" element (omitempty), so a missing value
+// leaves the, already empty, destination as it is.
+func unmarshalBSONCoordinates(rv bson.RawValue, v interface{}) error {
+	if rv.Type == 0 && len(rv.Value) == 0 {
+		return nil
+	}
+
+	return rv.Unmarshal(v)
 }
 
 // A Point is a helper type that will marshal to/from a GeoJSON Point geometry.
